@@ -29,6 +29,19 @@ Theorem C04_uid_never_reused : forall hash fx c clock s h, wf s ->
 Proof. exact uid_never_reused. Qed.
 Print Assumptions C04_uid_never_reused.
 
+(* session views: whatever subset of the announcements (EXISTS with its UID, APPENDUID, COPYUID) a session has applied,
+   in whatever order and at whatever flush, the pairs it holds are pairs of the mailbox's UID table: two announcements of
+   one UID name one message, and an announced UID still present names the message of that row. (That the session pipeline
+   itself ends with exactly the in-order view is proved for C01/C02: Proofs/InterleaveProofs.v pop_reorder_view,
+   Proofs/ObserverProofs.v observer_converges; the harness family sessview.go checks the live sessions against it.) *)
+Theorem C04_session_view_pairs_are_table_pairs : forall hash fx c clock s h e, wf s ->
+  In e (s_log (run hash fx c clock s h)) ->
+  (forall e', In e' (s_log (run hash fx c clock s h)) -> e_id e' = e_id e -> e_uid e' = e_uid e -> e_msg e' = e_msg e) /\
+  (forall m r, In m (s_mboxes (run hash fx c clock s h)) -> mb_id m = e_id e -> In r (mb_rows m) -> fst r = e_uid e ->
+               snd r = e_msg e).
+Proof. exact view_pairs_consistent. Qed.
+Print Assumptions C04_session_view_pairs_are_table_pairs.
+
 (* UIDNEXT (= counter + 1) is greater than every UID ever assigned in the mailbox ... *)
 Theorem C04_uidnext_bounds : forall hash fx c clock s h m e, wf s ->
   In m (s_mboxes (run hash fx c clock s h)) -> In e (s_log (run hash fx c clock s h)) -> e_id e = mb_id m ->
